@@ -13,6 +13,7 @@ import (
 	"github.com/markkurossi/mpc/compiler/utils"
 	"github.com/markkurossi/mpc/env"
 	"github.com/markkurossi/mpc/ot"
+	"github.com/markkurossi/mpc/types"
 	"pgregory.net/rapid"
 
 	"verifharness/internal/ev"
@@ -46,6 +47,11 @@ type Case struct {
 	// a new object.
 	Reuse   string `json:"reuse,omitempty"`
 	Earlier int    `json:"earlier,omitempty"`
+	// NegIn: an input of a signed scalar argument whose top bit is set is
+	// handed over as the negative big.Int of the same two's complement
+	// bits - what IOArg.Parse returns for "-3", i.e. what the command
+	// line tools pass.
+	NegIn bool `json:"neg_in,omitempty"`
 }
 
 // Compiled programs: name -> source.  Shapes the hand-made generator does not
@@ -237,6 +243,7 @@ func genCase(t *rapid.T) Case {
 	}
 	cs.FragsGE = drawFrags(t, "frag_ge")
 	cs.FragsEG = drawFrags(t, "frag_eg")
+	cs.NegIn = kind == 0 && rapid.IntRange(0, 2).Draw(t, "negin") > 0
 	return cs
 }
 
@@ -292,6 +299,16 @@ func bitsToInt(bits []bool) *big.Int {
 		}
 	}
 	return v
+}
+
+// asSigned returns v - 2^bits for a signed scalar argument whose top bit is
+// set in v, and v otherwise.
+func asSigned(v *big.Int, arg circuit.IOArg) *big.Int {
+	n := int(arg.Type.Bits)
+	if arg.Type.Type != types.TInt || len(arg.Compound) > 1 || n == 0 || v.Bit(n-1) == 0 {
+		return v
+	}
+	return new(big.Int).Sub(v, new(big.Int).Lsh(big.NewInt(1), uint(n)))
 }
 
 func run(cs Case) ev.Outcome {
@@ -389,6 +406,9 @@ func run(cs Case) ev.Outcome {
 			}
 		}
 		gIn, eIn := bitsToInt(sx), bitsToInt(sy)
+		if cs.NegIn {
+			gIn, eIn = asSigned(gIn, circ.Inputs[0]), asSigned(eIn, circ.Inputs[1])
+		}
 		g, e := gOT, eOT
 
 		res := xport.RunPair(d,
@@ -401,6 +421,9 @@ func run(cs Case) ev.Outcome {
 		d.Close()
 
 		desc := fmt.Sprintf("ot=%s x=%s y=%s", kind, gen.BitsOf(sx), gen.BitsOf(sy))
+		if gIn.Sign() < 0 || eIn.Sign() < 0 {
+			desc += fmt.Sprintf(" (as big.Int: x=%v y=%v)", gIn, eIn)
+		}
 		pre := ""
 		if sessions > 1 {
 			desc = fmt.Sprintf("session %d of %d (%s keeps its OT object): %s", sn+1, sessions, cs.Reuse, desc)
